@@ -10,7 +10,9 @@ TECHNIQUE = ('translation validation by symbolic execution: the three pure strin
              'fields of the format-spec / printf-style grammars, with width digits, precision digits and the fill character kept as opaque tokens) and each result is '
              'compared with a frozen reference model of the two mini-languages (library reference: "Format Specification Mini-Language", "printf-style String Formatting", '
              'C-API PyOS_double_to_string); table agreement Python <-> C for the helper interface (arity, literal kinds, name-aligned order, handled format characters); '
-             'guard dominance (pyflow) for conversion_char; key completeness for the f-string de-duplication')
+             'guard dominance (pyflow) for conversion_char; key completeness for the f-string de-duplication; cache-key completeness (def-use closure + path facts) of the '
+             'memo slots on the shared type objects; decision tables of the !s / str() elision by path enumeration of the four deciding functions over all valuations of their '
+             'atomic tests (rules/sC18.py)')
 DECIDES = ('C18-INT: for every format-spec shape, if CIntLike._parse_format accepts it for C-level formatting then CPython accepts it for an int and it means right alignment '
            'with space padding or sign-aware zero padding with exactly the returned (format char, width, padding); rejected-by-CPython specs (sign with c, precision, ...) are '
            'not accepted. C18-CHR: every format character it returns is handled by the C helper (macro routing, switch cases, remapping tests read from TypeConversion.c). '
@@ -26,7 +28,12 @@ DECIDES = ('C18-INT: for every format-spec shape, if CIntLike._parse_format acce
            'the % placeholder (strings right-aligned, - overrides 0, flags in any order, space ignored for strings, d/i/u converted to int, no integer precision, c not '
            'translated), or the whole expression is left alone; a break out of the chunk loop always gives up. '
            'C18-CONV: C-level number formatting is selected only on paths that test conversion_char. '
-           'C18-KEY: the f-string de-duplication key contains every text-relevant attribute of FormattedValueNode.')
+           'C18-KEY: the f-string de-duplication key contains every text-relevant attribute of FormattedValueNode. '
+           'C18-MEMO: in every PyrexTypes method that memoises a computed value on the (process-wide) type object, each parameter the value is computed from takes part in the '
+           'decision to use the slot and in the decision to fill it (CIntLike.convert_to_pystring: the helper instantiated for `int` is not served for an external typedef passed as name_type). '
+           'C18-STRNONE: FormattedValueNode.analyse_types / generate_result_code, OptimizeBuiltinCalls._handle_simple_function_unicode / visit_FormattedValueNode drop the str()/!s '
+           'conversion (bare operand returned, conversion call not emitted) only for conversion !s or none, without a format spec where the node itself disappears, on a statically-str '
+           'operand AND after may_be_none() was excluded; !r !a (and the internal d) are always applied.')
 NOT_DECIDED = ('the produced text in general: digit generation, sign and padding arithmetic inside the C helpers (__Pyx__PyUnicode_From_*, BuildFromAscii, FromOrdinal_Padded), '
                'PyOS_double_to_string flags (Py_DTSF_ADD_DOT_0 only for repr), string joining (length/kind computation of JoinedStrNode); invalid %-templates (a "-" after the '
                'width, unknown type characters), the "#" and "+" flags and "*" widths (not admitted by the rewrite regex - ANALYSIS-ERROR if it starts admitting them); the '
@@ -88,6 +95,15 @@ MUTATIONS = [
     ('Cython/Compiler/Optimize.py', "repaired _build_fstring: lstrip('- ') keeps the zeros", 'C18-TRN ...:minus-overrides-zero:*'),
     ('Cython/Compiler/Optimize.py', "repaired _build_fstring: lstrip('-0') keeps the space", 'C18-TRN ...:space-flag-str:str'),
     ('Cython/Compiler/Optimize.py', "repaired _build_fstring: '0' not re-added for numbers", 'C18-TRN ...:equivalent-spec:int/float'),
+    # C18-MEMO / C18-STRNONE (rules/sC18.py), tried on /tmp/strengthen/G4/scr.  Seeds: C18a -> C18-MEMO ...convert_to_pystring:to_pyunicode_utility:use ; C18b -> C18-STRNONE ...generate_result_code:conv=s
+    ('Cython/Compiler/PyrexTypes.py', 'CIntLike.convert_to_pystring: fill guard `if name_type is self:` -> `if True:`', 'C18-MEMO ...:to_pyunicode_utility:fill'),
+    ('Cython/Compiler/PyrexTypes.py', 'CIntLike.convert_to_pystring: hit condition `... and name_type is None` -> `... and format_spec is None`', 'C18-MEMO ...:to_pyunicode_utility:use'),
+    ('Cython/Compiler/PyrexTypes.py', 'CIntLike.convert_to_pystring: slot copied to a local `cached`, hit flag `cached is not None` without name_type', 'C18-MEMO ...:to_pyunicode_utility:use'),
+    ('Cython/Compiler/ExprNodes.py', 'FormattedValueNode.analyse_types: `resolved_type.is_pystr_type and not self.value.may_be_none()` -> `resolved_type.is_pystr_type`', 'C18-STRNONE ...analyse_types:conv=None, conv=s'),
+    ('Cython/Compiler/Optimize.py', '_handle_simple_function_unicode: `if not arg.may_be_none(): return arg` -> `return arg`', 'C18-STRNONE ..._handle_simple_function_unicode:str(x) + visit_FormattedValueNode:conv=None/s'),
+    ('Cython/Compiler/Optimize.py', 'visit_FormattedValueNode: drop `and not node.format_spec`', 'C18-STRNONE ...visit_FormattedValueNode:conv=None, conv=s'),
+    ('Cython/Compiler/Optimize.py', "visit_FormattedValueNode: `node.conversion_char == 's'` -> `in 'sr'`", 'C18-STRNONE ...visit_FormattedValueNode:conv=r'),
+    ('Cython/Compiler/ExprNodes.py', "generate_result_code: `conversion_char == 's' and value_is_unicode` -> `conversion_char in ('s', 'a') and ...`", 'C18-STRNONE ...generate_result_code:conv=a'),
     # reverting/applying fixes
     ('Cython/Compiler/PyrexTypes.py', "FIX: strip '-' only when format_type != 'c'; after '>' return None for a following '0'", 'C18-INT goes silent'),
     ('Cython/Compiler/ExprNodes.py', "FIX: `(not c_format_spec or self.conversion_char in (None, 'd')) and can_coerce_to_pystring(...)`", 'C18-CONV goes silent'),
@@ -103,6 +119,14 @@ SILENT_EDITS = [   # behaviour-preserving, no new violation
     "CFloatType._parse_format: `if not precision: return (format_char, 6)` -> `if precision == '': return (format_char, 3 + 3)`",
     'visit_JoinedStrNode: reorder the elements of the de-duplication key',
     "repaired _build_fstring: `left = '-' in flags; if left:`, tuple membership; '>' added also when there is no width",
+    # C18-MEMO / C18-STRNONE stayed silent on:
+    'CIntLike.convert_to_pystring: hit condition reordered + De Morgan `name_type is None and not (self.to_pyunicode_utility is None)`',
+    'CIntLike.convert_to_pystring: `cached = self.to_pyunicode_utility; hit = cached is not None and name_type is None; if hit: ... = cached`',
+    'CIntLike.convert_to_pystring: fill as `if name_type is not self: pass else: pair = (...); self.to_pyunicode_utility = pair`',
+    'generate_result_code: `value_is_unicode = not (not self.value.type.is_pystr_type or self.value.may_be_none())`',
+    "generate_result_code: nested ifs on a local alias `val = self.value` instead of the value_is_unicode flag",
+    'analyse_types: `not self.value.may_be_none() and resolved_type is unicode_type`',
+    '_handle_simple_function_unicode: local flag is_str, early return `if is_str and not arg.may_be_none(): return arg`',
 ]
 
 
@@ -134,4 +158,4 @@ def run(ctx):
     r_i5 = iface.rule_I5(_Ctx(ctx), modules=('ExprNodes', 'PyrexTypes'), names=names, floor=2, rid='C18-I5')
     return [r_int, pC18.rule_chr(ctx, accepted), pC18.rule_dbl(ctx), pC18.rule_call(ctx), r_i5, pC18.rule_fmtfn(ctx),
             pC18.rule_trn(ctx), pC18.rule_conv(ctx), pC18.rule_key(ctx), fmtascii.rule_ascii(ctx),
-            sC18.rule_memo(ctx)]
+            sC18.rule_memo(ctx), sC18.rule_strnone(ctx)]
